@@ -125,6 +125,9 @@ def run_leg(ctx, leg, g, tuples):
                 ex.append("(eqv? %s)" % names)
             steps.append({"src": "(vector %s)" % " ".join(ex)})
         jobs.append({"id": "c10-%s-%d" % (leg, k), "interps": [{"stdlib": True}], "steps": steps, "fuel": 10000})
+        if len(jobs) % 4 == 2:
+            from . import diff as _diff
+            _diff.age(jobs[-1], __import__("random").Random(len(jobs)), 200)      # every fourth job on an interpreter that has seen 200 failing forms
         meta.append(chunk)
     recs = core.run_jobs(jobs, leg, timeout=900, tag="c10")
     nd = len(defs)
